@@ -1,0 +1,145 @@
+//go:build verif
+
+// Contracts for package kvgraph, read by /verif/gvc (comment-only file; it
+// declares nothing and is compiled only with -tags verif).
+package kvgraph
+
+// ---- C16: key builders and parsers are inverse on NUL-free components ----------
+// These are "code lemmas": the expressions call the real builders and parsers, which
+// are executed from their SSA; bytes.Join/Split are the library model of keys.smt2.
+
+//@ lemma keys.graph.roundtrip
+//@   property C16
+//@   option prelude=keys
+//@   option pkg=kvgraph
+//@   option globals=kvgraph
+//@   params g:string
+//@   requires nozero(g)
+//@   ensures rt: GraphKeyParse(GraphKey(g)) == g
+
+//@ lemma keys.vertex.roundtrip
+//@   property C16
+//@   option prelude=keys
+//@   option pkg=kvgraph
+//@   option globals=kvgraph
+//@   params g:string id:string
+//@   requires nozero(g) && nozero(id)
+//@   ensures graph: VertexKeyParse(VertexKey(g, id)).0 == g
+//@   ensures id: VertexKeyParse(VertexKey(g, id)).1 == id
+
+//@ lemma keys.edge.roundtrip
+//@   property C16
+//@   option prelude=keys
+//@   option pkg=kvgraph
+//@   option globals=kvgraph
+//@   params g:string id:string src:string dst:string label:string et:byte
+//@   requires nozero(g) && nozero(id) && nozero(src) && nozero(dst) && nozero(label) && et != 0
+//@   ensures graph: EdgeKeyParse(EdgeKey(g, id, src, dst, label, et)).0 == g
+//@   ensures id: EdgeKeyParse(EdgeKey(g, id, src, dst, label, et)).1 == id
+//@   ensures src: EdgeKeyParse(EdgeKey(g, id, src, dst, label, et)).2 == src
+//@   ensures dst: EdgeKeyParse(EdgeKey(g, id, src, dst, label, et)).3 == dst
+//@   ensures label: EdgeKeyParse(EdgeKey(g, id, src, dst, label, et)).4 == label
+//@   ensures etype: EdgeKeyParse(EdgeKey(g, id, src, dst, label, et)).5 == et
+
+//@ lemma keys.srcedge.roundtrip
+//@   property C16
+//@   option prelude=keys
+//@   option pkg=kvgraph
+//@   option globals=kvgraph
+//@   params g:string id:string src:string dst:string label:string et:byte
+//@   requires nozero(g) && nozero(id) && nozero(src) && nozero(dst) && nozero(label) && et != 0
+//@   ensures graph: SrcEdgeKeyParse(SrcEdgeKey(g, src, dst, id, label, et)).0 == g
+//@   ensures src: SrcEdgeKeyParse(SrcEdgeKey(g, src, dst, id, label, et)).1 == src
+//@   ensures dst: SrcEdgeKeyParse(SrcEdgeKey(g, src, dst, id, label, et)).2 == dst
+//@   ensures id: SrcEdgeKeyParse(SrcEdgeKey(g, src, dst, id, label, et)).3 == id
+//@   ensures label: SrcEdgeKeyParse(SrcEdgeKey(g, src, dst, id, label, et)).4 == label
+//@   ensures etype: SrcEdgeKeyParse(SrcEdgeKey(g, src, dst, id, label, et)).5 == et
+
+//@ lemma keys.dstedge.roundtrip
+//@   property C16
+//@   option prelude=keys
+//@   option pkg=kvgraph
+//@   option globals=kvgraph
+//@   params g:string id:string src:string dst:string label:string et:byte
+//@   requires nozero(g) && nozero(id) && nozero(src) && nozero(dst) && nozero(label) && et != 0
+//@   ensures graph: DstEdgeKeyParse(DstEdgeKey(g, src, dst, id, label, et)).0 == g
+//@   ensures src: DstEdgeKeyParse(DstEdgeKey(g, src, dst, id, label, et)).1 == src
+//@   ensures dst: DstEdgeKeyParse(DstEdgeKey(g, src, dst, id, label, et)).2 == dst
+//@   ensures id: DstEdgeKeyParse(DstEdgeKey(g, src, dst, id, label, et)).3 == id
+//@   ensures label: DstEdgeKeyParse(DstEdgeKey(g, src, dst, id, label, et)).4 == label
+//@   ensures etype: DstEdgeKeyParse(DstEdgeKey(g, src, dst, id, label, et)).5 == et
+
+// ---- C16: prefixes capture exactly the keys of one graph / one element ------------
+
+//@ lemma keys.prefix.vertexlist
+//@   property C16
+//@   option prelude=keys
+//@   option pkg=kvgraph
+//@   option globals=kvgraph
+//@   params g:string g2:string id:string
+//@   requires nozero(g) && nozero(g2) && nozero(id)
+//@   ensures exact: hasprefix(VertexKey(g2, id), VertexListPrefix(g)) <==> g == g2
+
+//@ lemma keys.prefix.edgelist
+//@   property C16
+//@   option prelude=keys
+//@   option pkg=kvgraph
+//@   option globals=kvgraph
+//@   params g:string g2:string id:string src:string dst:string label:string et:byte
+//@   requires nozero(g) && nozero(g2) && nozero(id) && nozero(src) && nozero(dst) && nozero(label) && et != 0
+//@   ensures exact: hasprefix(EdgeKey(g2, id, src, dst, label, et), EdgeListPrefix(g)) <==> g == g2
+
+//@ lemma keys.prefix.edgeid
+//@   property C16
+//@   option prelude=keys
+//@   option pkg=kvgraph
+//@   option globals=kvgraph
+//@   params g:string g2:string id:string id2:string src:string dst:string label:string et:byte
+//@   requires nozero(g) && nozero(g2) && nozero(id) && nozero(id2) && nozero(src) && nozero(dst) && nozero(label) && et != 0
+//@   ensures exact: hasprefix(EdgeKey(g2, id2, src, dst, label, et), EdgeKeyPrefix(g, id)) <==> (g == g2 && id == id2)
+
+//@ lemma keys.prefix.srcedge
+//@   property C16
+//@   option prelude=keys
+//@   option pkg=kvgraph
+//@   option globals=kvgraph
+//@   params g:string g2:string v:string id:string src:string dst:string label:string et:byte
+//@   requires nozero(g) && nozero(g2) && nozero(v) && nozero(id) && nozero(src) && nozero(dst) && nozero(label) && et != 0
+//@   ensures vertex: hasprefix(SrcEdgeKey(g2, src, dst, id, label, et), SrcEdgePrefix(g, v)) <==> (g == g2 && v == src)
+//@   ensures graph: hasprefix(SrcEdgeKey(g2, src, dst, id, label, et), SrcEdgeListPrefix(g)) <==> g == g2
+
+//@ lemma keys.prefix.dstedge
+//@   property C16
+//@   option prelude=keys
+//@   option pkg=kvgraph
+//@   option globals=kvgraph
+//@   params g:string g2:string v:string id:string src:string dst:string label:string et:byte
+//@   requires nozero(g) && nozero(g2) && nozero(v) && nozero(id) && nozero(src) && nozero(dst) && nozero(label) && et != 0
+//@   ensures vertex: hasprefix(DstEdgeKey(g2, src, dst, id, label, et), DstEdgePrefix(g, v)) <==> (g == g2 && v == dst)
+//@   ensures graph: hasprefix(DstEdgeKey(g2, src, dst, id, label, et), DstEdgeListPrefix(g)) <==> g == g2
+
+//@ lemma keys.prefix.edgeindexentry
+//@   property C16
+//@   option prelude=keys
+//@   option pkg=kvgraph
+//@   option globals=kvgraph
+//@   params g:string id:string src:string dst:string label:string et:byte id2:string src2:string dst2:string
+//@   requires nozero(g) && nozero(id) && nozero(src) && nozero(dst) && nozero(label) && et != 0 && nozero(id2) && nozero(src2) && nozero(dst2)
+//@   ensures src: hasprefix(SrcEdgeKey(g, src2, dst2, id2, label, et), SrcEdgeKeyPrefix(g, src, dst, id)) <==> (src == src2 && dst == dst2 && id == id2)
+//@   ensures dst: hasprefix(DstEdgeKey(g, src2, dst2, id2, label, et), DstEdgeKeyPrefix(g, src, dst, id)) <==> (src == src2 && dst == dst2 && id == id2)
+
+// ---- C16: distinct arguments give distinct keys; key families never collide ---------
+
+//@ lemma keys.injective
+//@   property C16
+//@   option prelude=keys
+//@   option pkg=kvgraph
+//@   option globals=kvgraph
+//@   params g:string id:string g2:string id2:string src:string dst:string label:string et:byte src2:string dst2:string label2:string
+//@   requires nozero(g) && nozero(id) && nozero(g2) && nozero(id2) && nozero(src) && nozero(dst) && nozero(label) && et != 0 && nozero(src2) && nozero(dst2) && nozero(label2)
+//@   ensures vertex: VertexKey(g, id) == VertexKey(g2, id2) ==> g == g2 && id == id2
+//@   ensures edge: EdgeKey(g, id, src, dst, label, et) == EdgeKey(g2, id2, src2, dst2, label2, et) ==> g == g2 && id == id2 && src == src2 && dst == dst2 && label == label2
+//@   ensures families: VertexKey(g, id) != EdgeKey(g2, id2, src, dst, label, et) && VertexKey(g, id) != GraphKey(g2) &&
+//@       VertexKey(g, id) != SrcEdgeKey(g2, src, dst, id2, label, et) && VertexKey(g, id) != DstEdgeKey(g2, src, dst, id2, label, et) &&
+//@       SrcEdgeKey(g, src, dst, id, label, et) != DstEdgeKey(g2, src2, dst2, id2, label2, et) &&
+//@       EdgeKey(g, id, src, dst, label, et) != SrcEdgeKey(g2, src2, dst2, id2, label2, et)
